@@ -109,3 +109,41 @@ def write(directory, seed, delta=None):
     with open(path, 'w') as f:
         yaml.safe_dump(cfg, f)
     return path
+
+
+def write_queue_ties(directory, seed):
+    """a scenario built to produce TIES in the charge queue: one station with a single fast plug, an occupant already there, and
+    several low-charge vehicles waiting together at one rank, so that the fleet manager sends them off in the same step, they
+    arrive in the same step and join the queue with the same enqueue time.  Who gets the plug next must not depend on the
+    interpreter's hash seed."""
+    rng = random.Random(seed)
+    os.makedirs(directory, exist_ok=True)
+    delta = 60
+    def cell(i, j):
+        return (BASE_LAT + (i - 2) * 0.0032, BASE_LON + (j - 2) * 0.0041)
+    sla, slo = cell(2, 2)
+    rla, rlo = cell(rng.choice([0, 4]), rng.choice([0, 4]))
+    names = [f'v_{rng.randint(100, 999)}{c}' for c in 'abcd'][:rng.randint(3, 4)]
+    with open(os.path.join(directory, 'vehicles.csv'), 'w') as f:
+        f.write('vehicle_id,lat,lon,mechatronics_id,initial_soc,schedule_id,home_base_id\n')
+        f.write(f'v_occupant,{sla},{slo},leaf_50,0.05,,\n')
+        for n in names:
+            f.write(f'{n},{rla},{rlo},leaf_50,{rng.choice([0.03, 0.04, 0.05])},,\n')
+    with open(os.path.join(directory, 'stations.csv'), 'w') as f:
+        f.write('station_id,lat,lon,charger_count,charger_id,on_shift_access\n')
+        f.write(f's0,{sla},{slo},1,DCFC,true\n')
+    bla, blo = cell(2, 3)
+    with open(os.path.join(directory, 'bases.csv'), 'w') as f:
+        f.write('base_id,lat,lon,station_id,stall_count\n')
+        f.write(f'b0,{bla},{blo},,2\n')
+    with open(os.path.join(directory, 'requests.csv'), 'w') as f:
+        f.write('request_id,o_lat,o_lon,d_lat,d_lon,departure_time,passengers\n')
+    cfg = {'sim': {'sim_name': os.path.basename(directory), 'timestep_duration_seconds': delta, 'request_cancel_time_seconds': 600,
+                   'start_time': 0, 'end_time': 400 * delta},
+           'network': {'network_type': 'euclidean'},
+           'input': {'vehicles_file': 'vehicles.csv', 'requests_file': 'requests.csv', 'bases_file': 'bases.csv', 'stations_file': 'stations.csv'},
+           'dispatcher': {'valid_dispatch_states': ['Idle', 'Repositioning'], 'max_search_radius_km': 10.0}}
+    path = os.path.join(directory, 'scenario.yaml')
+    with open(path, 'w') as f:
+        yaml.safe_dump(cfg, f)
+    return path
